@@ -1626,15 +1626,44 @@ fn feat_node(n: &PNode, parent_compact: bool, flow: bool, out: &mut Vec<&'static
                 out.push("bs-hash-first");
             }
         }
+        PNode::Str(s, SStyle::Plain) => {
+            if !flow && (s.contains('[') || s.contains('{')) {
+                out.push("plain-flowind");
+            }
+            if flow && s.starts_with(':') {
+                out.push("flow-colon-plain");
+            }
+        }
         PNode::Seq { flow: f, compact, items, .. } => {
+            if *compact && !*f {
+                let n = items.len();
+                if items.iter().take(n.saturating_sub(1)).any(|e| multiline(&e.1)) {
+                    out.push("compact-nested");
+                }
+            }
             for (m, x) in items {
                 feat_meta(m, out);
+                if *compact && !*f && is_bs(x) {
+                    out.push("bs-in-compact-seq");
+                }
                 feat_node(x, *compact && !*f, *f || flow, out);
             }
         }
         PNode::Map { flow: f, compact, entries, .. } => {
+            if *compact && !*f {
+                let n = entries.len();
+                if entries.iter().take(n.saturating_sub(1)).any(|e| multiline(&e.3)) {
+                    out.push("compact-nested");
+                }
+            }
             for (m, k, ks, x) in entries {
                 feat_meta(m, out);
+                if !(*f || flow) && *ks == KStyle::Plain && (k.contains('[') || k.contains('{')) {
+                    out.push("plain-flowind");
+                }
+                if (*f || flow) && *ks == KStyle::Plain && k.starts_with(':') {
+                    out.push("flow-colon-plain");
+                }
                 if k == "<<" && *ks != KStyle::Plain {
                     out.push("quoted-merge");
                 }
@@ -1646,6 +1675,24 @@ fn feat_node(n: &PNode, parent_compact: bool, flow: bool, out: &mut Vec<&'static
         }
         PNode::Anchored(_, x) => feat_node(x, parent_compact, flow, out),
         _ => {}
+    }
+}
+
+/// Does the node's rendering span several lines?
+fn multiline(n: &PNode) -> bool {
+    match strip_anchor(n) {
+        PNode::Str(_, SStyle::Literal { .. }) | PNode::Str(_, SStyle::Folded { .. }) => true,
+        PNode::Seq { flow: false, compact: false, .. } | PNode::Map { flow: false, compact: false, .. } => true,
+        PNode::Seq { flow: false, compact: true, items, .. } => items.len() >= 2 || items.iter().any(|e| multiline(&e.1)),
+        PNode::Map { flow: false, compact: true, entries, .. } => entries.len() >= 2 || entries.iter().any(|e| multiline(&e.3)),
+        _ => false,
+    }
+}
+
+fn strip_anchor(n: &PNode) -> &PNode {
+    match n {
+        PNode::Anchored(_, x) => strip_anchor(x),
+        x => x,
     }
 }
 
